@@ -14,6 +14,18 @@ CFG_FORMS = ["absolute", "relative", "bare", "via_symlink"]
 CWDS = ["config_dir", "parent", "unrelated"]
 
 
+NON_UTF8_NAMES = [os.fsdecode(b"caf\xe9.rs"), os.fsdecode(b"dir-\xff/inner.rs"), os.fsdecode(b"sub/latin1-\xe4\xf6\xfc.rs"),
+                  os.fsdecode(b"ok-name.r\xe9s")]
+
+
+def is_utf8_name(p):
+    try:
+        p.encode("utf-8")
+        return True
+    except UnicodeEncodeError:
+        return False
+
+
 def ext_of(name):
     base = os.path.basename(name)
     if "." not in base[1:]:          # no extension, or only a leading dot
@@ -44,6 +56,8 @@ def build_layout(box, rnd, srcrel):
     # permission bits are not part of the scope rule
     modes = {"ro444.rs": 0o444, "ro400.rs": 0o400, "exec755.rs": 0o755, "rodir/inner_of_readonly_dir.rs": 0o444, "ro_notes.txt": 0o444}
     names += list(modes)
+    # names that are not valid UTF-8 (a Latin-1 file name on a UTF-8 system): regular files below the source directory all the same
+    names += NON_UTF8_NAMES
     for n in names:
         box.write(os.path.join(srcrel, n), STMT)
     for n, m in modes.items():
@@ -140,6 +154,10 @@ def work(job):
     for n in names:
         if ext_of(n) in exts:
             scope.add(os.path.normpath(os.path.join("proj", srcrel, n)))
+    # in-scope files whose path is not valid UTF-8 are judged by a clause of their own (one signature per mode, independent of
+    # the product coordinates), so that a defect confined to them cannot hide - or hide behind - anything else
+    scope_nu = {p for p in scope if not is_utf8_name(p)}
+    scope -= scope_nu
     diff = core.snap_diff(before, after, meta=False)
     v = []
     changed = {p for p, _ in diff}
@@ -147,7 +165,7 @@ def work(job):
     for p, what in diff:
         if p == lock_rel and mode == "edit":
             continue
-        if p in scope and what == "content" and mode == "edit":
+        if (p in scope or p in scope_nu) and what == "content" and mode == "edit":
             continue
         kind = "created" if what == "created" else "modified"
         where = "lock-in-wrong-place" if p.endswith("Breadlog.lock") else ("out-of-scope-path-" + kind)
@@ -156,7 +174,7 @@ def work(job):
     # the config file, the lock next to it (and its scratch name while it is being replaced) and TMPDIR are legitimately opened
     # (a scratch file the run creates itself - wherever it chooses to put it - did not exist before and is not "a file that was read";
     #  whether scratch files are cleaned up is C08's business, whether anything persists is covered by the snapshot diff above)
-    read_out_of_scope = sorted(p for p in opened if p not in scope and p in before and before[p][0] == "f"
+    read_out_of_scope = sorted(p for p in opened if p not in scope and p not in scope_nu and p in before and before[p][0] == "f"
                                and p not in ("proj/Breadlog.yaml", "proj/Breadlog.lock", "proj/cfgstore/shared/real-config.yaml"))
     if read_out_of_scope:
         v.append(("out-of-scope-file-read", {"paths": read_out_of_scope[:4]}))
@@ -182,11 +200,27 @@ def work(job):
     else:
         if r.rc == 0:
             v.append(("no-in-scope-files-but-exit-0", {}))
+    nu_special = []
+    if scope_nu and r.rc is not None:
+        # check mode cannot name such a file faithfully on stdout; what can be observed is whether it was opened for reading (shim)
+        # and, in edit mode, whether it received its reference
+        ignored = sorted(p for p in scope_nu if p not in opened)
+        unedited = sorted(p for p in scope_nu if mode == "edit" and p not in changed)
+        if ignored or unedited:
+            nu_special.append(("in-scope-file-with-non-UTF-8-name-ignored", {"never_opened": ignored, "not_edited": unedited}))
+        for p in scope_nu & changed:
+            t = decompose(before[p][6], after[p][6])
+            if t is None or len(t) != 1:
+                nu_special.append(("in-scope-file-with-non-UTF-8-name-not-edited-correctly", {"path": p}))
+        res["counters"]["in_scope_files_with_non_utf8_names"] = len(scope_nu)
     res["nontrivial"].append("%s|%s|%s|%s|%s" % ("+".join(exts), sform, cform, cwdk, mode))
     res["counters"].update({"in_scope_files": len(scope), "paths_in_layout": len(before), "files_opened_observed": len(opened)})
     for clause, detail in v:
         res["violations"].append({"signature": "C15.%s|ext=%s|src=%s|cfg=%s|cwd=%s|%s" % (clause, "+".join(exts), sform, cform, cwdk, mode),
                                   "detail": dict(detail, exit=r.ended(), argv=r.argv[1:], cwd=cwd), "case": {"seed": seed, "i": i}})
+    for clause, detail in nu_special:
+        res["violations"].append({"signature": "C15.%s|%s" % (clause, mode), "detail": dict(detail, exit=r.ended(), extensions=exts),
+                                  "case": {"seed": seed, "i": i}})
     if i < 2:
         res["samples"].append({"extensions": exts, "source_dir": sd, "config_arg": carg, "cwd": os.path.relpath(cwd, root), "mode": mode,
                                "in_scope": sorted(scope), "changed": sorted(changed), "opened": sorted(opened)[:12]})
